@@ -322,6 +322,73 @@ fn main() {
 				}
 			}
 		}
+		// poisoning histories: holds on a Poisonable through its own guard / scoped call and through
+		// the guard / scoped call of every collection kind containing it, in both modes, ending
+		// normally or by a user panic; is_poisoned and clear_poison in between
+		"poison" => {
+			let colls = vec![
+				Expr::P(0, Box::new(Expr::R(0))),
+				Expr::B(Box::new(Expr::V(vec![Expr::C(0), Expr::R(1)]))),
+				Expr::T(Box::new(Expr::V(vec![Expr::R(1), Expr::C(0)]))),
+				Expr::O(5, Box::new(Expr::V(vec![Expr::P(1, Box::new(Expr::M(2)))]))),
+				Expr::P(2, Box::new(Expr::F(Box::new(Expr::V(vec![Expr::R(3)]))))),
+			];
+			let mut alpha: Vec<Stmt> = Vec::new();
+			for c in 0..colls.len() {
+				let modes: &[bool] = if c == 3 { &[true] } else { &[true, false] };
+				for &w in modes {
+					for e in [Exit::Drop, Exit::Panic] {
+						alpha.push(session(c, Api::Lock, w, true, vec![], e));
+					}
+					for e in [Exit::Ret, Exit::Panic] {
+						alpha.push(session(c, Api::Scoped, w, false, vec![], e));
+					}
+					alpha.push(session(c, Api::ScopedTry, w, false, vec![], Exit::Panic));
+					alpha.push(session(c, Api::Try, w, true, vec![], Exit::Panic));
+				}
+			}
+			let probes = vec![Stmt::IsPoisoned(0), Stmt::ClearPoison(0), Stmt::IsPoisoned(4), Stmt::ClearPoison(4)];
+			let maxlen = if quick { 2 } else { 3 };
+			let mut seqs: Vec<Vec<usize>> = vec![vec![]];
+			let mut all: Vec<Vec<usize>> = Vec::new();
+			for _ in 0..maxlen {
+				let mut nxt = Vec::new();
+				for s in &seqs {
+					for a in 0..alpha.len() + probes.len() {
+						let mut s2 = s.clone();
+						s2.push(a);
+						nxt.push(s2);
+					}
+				}
+				all.extend(nxt.iter().cloned());
+				seqs = nxt;
+			}
+			for _ in 0..(if quick { 3000 } else { 30000 }) {
+				let len = 3 + rng.below(if quick { 4 } else { 6 });
+				all.push((0..len).map(|_| rng.below(alpha.len() + probes.len())).collect());
+			}
+			for sq in all {
+				let mut prog: Vec<Stmt> = Vec::new();
+				for i in &sq {
+					// a session that consumed its key is followed by a fresh `get`
+					prog.push(Stmt::Get);
+					prog.push(if *i < alpha.len() { alpha[*i].clone() } else { probes[*i - alpha.len()].clone() });
+				}
+				prog.push(Stmt::IsPoisoned(0));
+				prog.push(Stmt::IsPoisoned(4));
+				let c = Case {
+					id: format!("{family}{bi}"),
+					n: 4,
+					addr: vec![0, 2, 4, 6],
+					colls: colls.clone(),
+					held: b"FFFF".to_vec(),
+					prog,
+					script: vec![],
+				};
+				bi += 1;
+				sink_runs += explore(&c, Budget { refusals: 0, faults: 0, max_runs: 1 }, &mut |c, r| out.emit(c, r));
+			}
+		}
 		// single-thread histories over the key-affecting vocabulary (C06, C03) on a tiny world:
 		// m0 free, m1 write-held by another thread (so that try fails), P0(m0)
 		"hist" => {
